@@ -1,7 +1,7 @@
 """Supervised worker of the C17 harness: runs public algorithms of an overlay build of sknetwork on the
 inputs it receives (one JSON task per line on stdin, one JSON answer per line on stdout).
 
-The parent enforces the wall-clock limit and notices crashes (a dead worker).  An answer carries
+The parent enforces the limit (CPU seconds of this process) and notices crashes (a dead worker).  An answer carries
   status : 'ok' | 'exc'
   exc    : exception class name, message (for 'exc')
   oob    : True when the exception is Cython's bounds check of the *checked* build
@@ -39,7 +39,36 @@ def _hook(u):
 sys.unraisablehook = _hook
 
 
+def gen_graph(g):
+    """Large inputs of the scaling probe are described, not transmitted: a deterministic generator (numpy RandomState)
+    * ring_chords   : undirected ring + n random chords (connected, about 2n edges, unit weights)
+    * diring_chords : directed ring + n random arcs (strongly connected, about 2n arcs)
+    * dag_chords    : arcs i -> j, i < j only: the path 0 -> 1 -> ... and n random forward arcs (acyclic)"""
+    n, seed = int(g['n']), int(g.get('seed', 0))
+    rs = np.random.RandomState(seed)
+    i = np.arange(n)
+    a, b = rs.randint(0, n, n), rs.randint(0, n, n)
+    keep = a != b
+    a, b = a[keep], b[keep]
+    if g['gen'] == 'dag_chords':
+        a, b = np.minimum(a, b), np.maximum(a, b)
+        rows, cols = np.concatenate([i[:-1], a]), np.concatenate([i[1:], b])
+    else:
+        rows, cols = np.concatenate([i, a]), np.concatenate([(i + 1) % n, b])
+    m = sparse.csr_matrix((np.ones(len(rows)), (rows, cols)), shape=(n, n))
+    if g['gen'] == 'ring_chords':
+        m = m + m.T
+    m = sparse.csr_matrix(m)
+    m.sum_duplicates()
+    m.data[:] = 1.0
+    m.indices = m.indices.astype(np.int32)
+    m.indptr = m.indptr.astype(np.int32)
+    return m
+
+
 def mk(g):
+    if g.get('gen'):
+        return gen_graph(g)
     dt = {'float': float, 'bool': bool, 'int': int}[g.get('dtype', 'float')]
     a = sparse.csr_matrix((np.array(g['data'], dtype=dt), np.array(g['indices'], dtype=np.int32),
                            np.array(g['indptr'], dtype=np.int32)), shape=(g['n'], g['m']))
@@ -189,6 +218,7 @@ ALGOS = {
     'get_shortest_path': fn(path.get_shortest_path, source=0),
     'breadth_first_search': fn(path.breadth_first_search, source=0),
     'get_dag': fn(path.get_dag, source=0),
+    'get_dag_index': fn(path.get_dag),       # default order: the node indices (n distinct values)
 }
 
 # ---- monitoring of the arguments of the compiled kernels (contract of the kind declarations) ------------
@@ -262,6 +292,7 @@ def main():
         c0 = time.process_time()
         try:
             a = mk(t['graph'])
+            c0 = time.process_time()        # the time of the algorithm alone
             r = ALGOS[t['algo']](a, t.get('extra') or {})
             ans['status'] = 'ok'
             if isinstance(r, Val):
